@@ -4,7 +4,7 @@ import RustCcModel.Proofs.CtlSimp
 `refs w x` counts every `Cc` to `x` the machine knows about: table entries, stashed clones, pointers
 held by frames (a `Cc` being dropped, a captured pointer of a running action, …) and pointer-typed
 fields of *all* objects (traced, untraced, the cleaner's map pointer, captured pointers of registered
-actions). Invariant `Counts`: for every allocated box `refs w x ≤ rc x`; nothing refers to
+actions). Invariant `Counts`: for every identity `refs w x ≤ rc x` (a freed box has count 0: nothing points to it); nothing refers to
 identities not yet allocated; identities mentioned by frames are allocated. -/
 namespace RustCc
 open World
@@ -55,7 +55,7 @@ def Frame.ids : Frame → List Id
   | _ => []
 
 structure Counts (w : World) : Prop where
-  le : ∀ x, (w.heap x).boxLive = true → refs w x ≤ (w.heap x).rc
+  le : ∀ x, refs w x ≤ (w.heap x).rc
   fresh : ∀ x, w.next ≤ x → refs w x = 0
   frames : ∀ f ∈ w.stack, ∀ i ∈ f.ids, i < w.next
   pcb : ∀ x ∈ w.pc, x < w.next
@@ -243,8 +243,8 @@ theorem dropMetadata_refs (w : World) (y x : Id) : refs (w.dropMetadata y) x = r
 
 theorem freeBox_refs (w : World) (y x : Id) : refs (w.freeBox y) x = refs w x := by
   unfold freeBox
-  have : refs (({ (w.upd y fun o => { o with boxLive := false }) with allocBytes := w.allocBytes - (w.heap y).size }).emit (.free y)) x
-      = refs (w.upd y fun o => { o with boxLive := false }) x := rfl
+  have : refs (({ (w.upd y fun o => { o with boxLive := false, rc := 0, tc := 0, mark := .non }) with allocBytes := w.allocBytes - (w.heap y).size }).emit (.free y)) x
+      = refs (w.upd y fun o => { o with boxLive := false, rc := 0, tc := 0, mark := .non }) x := rfl
   rw [this]; exact refs_upd_same w y _ x rfl
 
 theorem weakDrop_refs (w : World) (r : WRef) (x : Id) : refs (w.weakDrop r) x = refs w x := by
